@@ -19,7 +19,7 @@ RULE = ('seeded generation per processor family: 1..3 resources x 2..6 fields na
         'distinct = case descriptor hash; non-trivial = the step changes >=1 field and leaves >=1 field '
         'untouched in a selected resource with >=1 row')
 ASSUMPTIONS = [
-    'operation over zero non-null values (avg/min/max/multiply): any outcome accepted (undocumented)',
+    'avg/min/max/multiply over zero non-null values give null (sum gives 0, join the empty string)',
     'rename configurations that produce a name clash are ill-formed: any outcome accepted',
     'find_replace on integer fields is compared after casting the emitted text back to the declared type',
     'the type chosen for a computed field given by name only is judged by C02, not here',
